@@ -4,6 +4,7 @@
 mod alloc;
 mod tok;
 mod m_vec;
+mod m_arc;
 
 use std::io::{BufRead, Write};
 
@@ -55,6 +56,7 @@ fn main() {
         let mut mon = Mon::default();
         alloc::domain(1);
         let rows = match hdr[0] {
+            10 => m_arc::run(&hdr[1..], &rows_in, &mut mon),
             11 => m_vec::run(&hdr[1..], &rows_in, &mut mon),
             _ => vec![vec![-3]],
         };
